@@ -149,6 +149,9 @@ Proof. unfold bump_after_shutdown. now destruct (shutdown_phase s =? 2). Qed.
 Lemma bump_reqs s : reqs (bump_after_shutdown s) = reqs s.
 Proof. unfold bump_after_shutdown. now destruct (shutdown_phase s =? 2). Qed.
 
+Lemma bump_files s : files (bump_after_shutdown s) = files s.
+Proof. unfold bump_after_shutdown. now destruct (shutdown_phase s =? 2). Qed.
+
 Lemma set_stage_coords s g x : coords (set_stage s g x) = coords s.
 Proof. now destruct g. Qed.
 Lemma set_stage_tasks s g x : tasks (set_stage s g x) = tasks s.
